@@ -31,6 +31,9 @@ T["T_ANY"] = REAL_TAGS
 PTR = {"string": 4, "arr": 8 | 0x200, "map": 0x20, "ob": 0x10, "buf": 0x100, "fp": 0x40}
 TAGNAME = {v: k for k, v in T.items() if k not in ("T_ANY", "T_INVALID", "T_LVALUE")}
 
+# helpers that release a stack slot as one particular kind of value (they use that union member without looking at the tag)
+TYPED_RELEASE = {"free_string_svalue": "string"}
+
 SP_EFFECT = {"pop_stack": -1, "pop_2_elems": -2, "pop_3_elems": -3}
 # callees that consume `narg` stacked arguments (argument position of the count) and leave nothing
 CONSUMES = {"apply": 2, "safe_apply": 2, "apply_master_ob": 1, "safe_apply_master_ob": 1, "call_function_pointer": 1, "safe_call_function_pointer": 1, "call_efun_callback": 1, "call_direct": None}
@@ -210,6 +213,10 @@ class Interp:
                             continue
                         idx = self.slot_of_member(u, st, N)
                         self.reads.append((blk, n, N, idx, None if idx is None else self.mask(st, N, idx), show(n)[:40]))
+                    elif n.get("k") == "Call" and n.get("fn") in TYPED_RELEASE and n.get("args"):
+                        # a release helper that treats the slot as one particular kind of value reads that union member
+                        idx = self.slot_ptr(n["args"][0], st, N)
+                        self.reads.append((blk, {"k": "Mem", "f": TYPED_RELEASE[n["fn"]], "l": n.get("l")}, N, idx, None if idx is None else self.mask(st, N, idx), show(n)[:40]))
             # effects
             for n in nodes:
                 k = n.get("k")
